@@ -145,7 +145,7 @@ def cases(seed, tier):
         out.append({'n': n, 'conc': conc,
                     'conc_expr': conc is not None and prng.random() < 0.3,
                     'zip': prng.random() < 0.25,
-                    'subwf': prng.random() < 0.2,
+                    'subwf': prng.random() < 0.3,
                     'retry': prng.random() < 0.15,
                     'outs': outs,
                     'max_orders': 6 if tier == 'quick' else 24,
@@ -218,7 +218,44 @@ def run_case(case):
                                       for i in range(n)]
                 rerun_state['h'] = w.op_rerun(t[0]['id'], reset=False)
                 return True
-            run = ec.execute(c, extra_monitors=[mon], phases=[rerun_phase])
+            def child_rerun_phase(w, rerun_state=rerun_state):
+                # sub-workflow items: the failed task *inside* every failed
+                # child is rerun, all requests back to back, so that the
+                # children finish one by one while their siblings are
+                # still running again
+                t = [t for t in w.rec.rows['task'].values()
+                     if t['name'] == 'w']
+                root = w.root()
+                if not t or t[0]['state'] != 'ERROR' or root is None or \
+                        root['state'] != 'ERROR' or case['retry']:
+                    return False
+                kids = [x for x in w.rec.rows['wf'].values()
+                        if x.get('task_execution_id') == t[0]['id'] and
+                        x['state'] == 'ERROR' and x.get('accepted')]
+                inner = [ct for ct in w.rec.rows['task'].values()
+                         if ct['state'] == 'ERROR' and
+                         ct['workflow_execution_id'] in
+                         set(x['id'] for x in kids)]
+                if not inner:
+                    return False
+                again = prng.random() < 0.3
+                bad = prng.choice(sorted(
+                    (x.j('runtime_context') or {}).get('index')
+                    for x in kids)) if again else None
+                w.outcome_rules[:] = [
+                    {'t': 'w', 'i': i,
+                     'outcome': (['err', 'bad-again-%d' % i] if i == bad
+                                 else ['ok', 'it-%d' % i])}
+                    for i in range(n)]
+                for ct in sorted(inner, key=lambda r: r['id']):
+                    w.op_rerun(ct['id'], reset=True)
+                rerun_state['h'] = True
+                rerun_state['child'] = len(inner)
+                rerun_state['bad'] = bad
+                return True
+            use_child = case['subwf'] and k % 2 == 1
+            run = ec.execute(c, extra_monitors=[mon], phases=[
+                child_rerun_phase if use_child else rerun_phase])
             res['executions'] += 1
             ec.merge_counts(res['events'], run.events)
             ec.merge_counts(res['monitor_evaluations'], run.mon_evals)
@@ -226,7 +263,11 @@ def run_case(case):
             if run.inconclusive:
                 res['inconclusive'] = run.inconclusive
                 continue
+            if rerun_state.get('child'):
+                res['monitor_evaluations']['child-rerun'] = \
+                    res['monitor_evaluations'].get('child-rerun', 0) + 1
             desc = {'n': n, 'concurrency': case['conc'],
+                    'child_rerun': rerun_state.get('child'),
                     'outcomes': case['outs'], 'order': list(order),
                     'strategy': c['strategy'], 'subwf': case['subwf'],
                     'retry': case['retry'], 'zip': case['zip']}
@@ -254,7 +295,8 @@ def run_case(case):
             else:
                 want_state = 'SUCCESS'
             if rerun_state.get('h'):
-                want_state = 'SUCCESS'
+                want_state = ('ERROR' if rerun_state.get('bad') is not None
+                              else 'SUCCESS')
             if want_state and t['state'] != want_state:
                 viol('wrong-final-state',
                      'items %s: task ends %s, expected %s' % (
